@@ -360,6 +360,13 @@ def run_history(ctx, scratch, kind):
                         if isinstance(val, np.ndarray) and val.dtype.kind == 'U' and len(set(val.tolist())) > 1:
                             val[:] = np.roll(val, 1)
                             n_edit += 1
+                # ... or its items are reordered in place (conditions of an RDMs object, observations of a dataset)
+                if kind == 'RDMs' and obj.n_cond >= 2 and rng.integers(2):
+                    obj.reorder(np.array([int(i) for i in rng.permutation(obj.n_cond)]))
+                    n_edit += 1
+                elif kind in ('Dataset', 'TemporalDataset') and obj.n_obs >= 2 and rng.integers(2):
+                    obj.sort_by('run' if rng.integers(2) else 'cond')
+                    n_edit += 1
                 ctx.count('objects_relabelled_in_place_between_saves', 1 if n_edit else 0)
             else:
                 obj, theta = mk()
